@@ -644,6 +644,23 @@ package db
 //@ ensures[family] result2 == nil && result0 != nil && uf.isv4ip(old(ipnet.IP)) ==> result1 >= 96
 //@ loop 1 invariant 0 <= i && i <= 16
 
+// The RocksDB driver's GetLocationByMap (C03, C02, C04): the subnet table is one sorted run of range points per map,
+// <marker 4><map id 2><address 16><prefix length 1>; the closest key at or below the client's point is taken.
+// Claimed: a location is returned only from a range point of the map that was asked for (the found key carries the
+// asked key's marker and map id) -- a map without any range point yields "no subnet matches", as the CDB driver
+// does, never the last point of the map sorting before it; and every index into the found key and value is in range.
+// (isIPv4 / To16 / Mask.Size only shape the key's tail and are abstracted.)
+//@ func isIPv4
+//@ trusted
+//@ pure
+//@ func rdbdriver.GetLocationByMap
+//@ flag skip frame
+//@ updates closestAsked, closestKey, closestVal
+//@ requires ipnet != nil && r != nil && r.db != nil && context != nil && dyntype(context) == ptrtag("rdb.Context")
+//@ ensures[own-map] err == nil && loc != nil ==> len(closestKey) >= 6 && len(closestAsked) >= 6 && forall(j, 0, 6, closestKey[j] == closestAsked[j])
+//@ ensures[asked-map] len(closestAsked) == 23 && forall(j, 0, min(len(mapID), 2), closestAsked[4+j] == mapID[j])
+//@ ensures[loc2] err == nil && loc != nil ==> len(loc) == 2 && ref(loc) == ref(closestVal)
+
 // ---- C05: a reader's lookup context never outlives the reader ------------------------------------------------
 // The RocksDB driver hands every reader a brand-new rdb.Context (its cache has no eviction and Reset is a
 // no-op, so a recycled context would answer from whatever generation first filled it).
